@@ -39,6 +39,9 @@ func coYield(L *LState) int {
 	return -1
 }
 
+// maxResumeDepth bounds the nesting of resumes (LUAI_MAXCCALLS in the reference implementation).
+const maxResumeDepth = 200
+
 func coResume(L *LState) int {
 	th := L.CheckThread(1)
 	if L.G.CurrentThread == th {
@@ -71,6 +74,14 @@ func coResume(L *LState) int {
 		L.Push(LFalse)
 		L.Push(LString(msg))
 		return 2
+	}
+	depth := 0
+	for p := L; p != nil; p = p.Parent {
+		depth++
+	}
+	if depth >= maxResumeDepth {
+		// every nested resume runs on the Go stack of its resumer
+		L.RaiseError("C stack overflow")
 	}
 	th.Parent = L
 	L.G.CurrentThread = th
